@@ -3,6 +3,7 @@ package main
 import (
 	"fmt"
 	"go/types"
+	"os"
 	"strings"
 
 	"golang.org/x/tools/go/ssa"
@@ -145,6 +146,9 @@ func (fx *fexec) onStack(f *ssa.Function) bool {
 
 func (fx *fexec) inlineCall(f *ssa.Function, args []Val, bind []Val, st *State, rt types.Type) Val {
 	vc := fx.vc
+	if os.Getenv("GOCV_DEBUG") != "" {
+		fmt.Fprintf(os.Stderr, "%sinline %s (script %d lines)\n", strings.Repeat("  ", fx.depth), funcKey(f), len(vc.script))
+	}
 	sub := vc.newExec(f, vc.eng.contracts.Funcs[funcKey(f)], fx.depth+1)
 	sub.parent = fx
 	for i, fv := range f.FreeVars {
